@@ -39,3 +39,32 @@ Proof. reflexivity. Qed.
 Lemma tie_global_value i :
   value_result (run no_set exp_globalPalette_value (VPal PGlobal) [VZ i]) = Some (pal_value PGlobal i).
 Proof. reflexivity. Qed.
+
+(* ---------- linearPalette ---------- *)
+Definition find_body : list gstmt :=
+  [SIf [] (EBin "==" (EId "t") (EId "v")) [SReturn [(EId "i"); (EId "true")]] []].
+
+(* the range loop of linearPalette.id is the first-index scan *)
+Lemma range_find v X f : forall l idx,
+  range_loop (fun e' => scoped_exec (exec no_set (S (S (S (S f))))) e' find_body) "i" "t" [("v", VZ v); ("l", X)] idx l =
+  match index_of v l idx with
+  | Some r => SR [("t", VZ v); ("i", VZ r); ("v", VZ v); ("l", X)] [VZ r; VB true]
+  | None => SN [("v", VZ v); ("l", X)]
+  end.
+Proof.
+  induction l as [|y t IH]; intros idx; [reflexivity|].
+  cbn [range_loop index_of]. cbn -[range_loop index_of Z.add].
+  destruct (Z.eqb_spec y v) as [->|Hne].
+  - reflexivity.
+  - cbn -[range_loop index_of Z.add]. apply IH.
+Qed.
+
+Lemma tie_linear_id vals cap pb v :
+  id_result exp_linearPalette_id (run no_set exp_linearPalette_id (VPal (PLinear vals cap pb)) [VZ v])
+  = Some (pal_id (PLinear vals cap pb) v).
+Proof.
+  unfold run, exec_body, run_fuel. cbn -[range_loop index_of Z.add Z.sub zlen].
+  fold find_body. rewrite range_find. cbn [pal_id].
+  destruct (index_of v vals 0) as [r|]; [reflexivity|].
+  cbn -[Z.add Z.sub zlen].
+Abort.
